@@ -209,6 +209,9 @@ func (s *storm) dial(ctx context.Context, target string, opts ...grpc.DialOption
 	}
 	s.mu.Lock()
 	inv.conn, inv.err, inv.cancelled, inv.returned, inv.ret = cc, err, cancelled, true, s.now()
+	if cancelled && s.gInflight > 32 {
+		s.labels["originator-cancelled-while-more-than-32-dials-in-flight"] = true
+	}
 	s.inflight[ai]--
 	s.gInflight--
 	s.mu.Unlock()
